@@ -64,6 +64,8 @@ func runC18(c *Ctx) {
 	c18R3(c, cfgFns, fields)
 	c18R4(c)
 	c18R5(c, cfgFns)
+	c18R6(c, cfgFns)
+	c18R7(c, cfgFns)
 }
 
 // The unexported state of Config, identified by TYPE and ROLE (renaming a field
@@ -272,6 +274,223 @@ func c18R5(c *Ctx, fns []*ssa.Function) {
 		for _, call := range CallsTo(f, "encoding/base64.NewEncoding", "(encoding/base64.Encoding).WithPadding", "(encoding/base64.Encoding).Strict") {
 			c.Violation(R5, FnName(f)+"|custom-encoding", call.Pos(), "a custom base64 encoding is constructed in the config package: the auth field must be standard base64 with padding")
 		}
+	}
+}
+
+// ---------- R6 ----------
+
+// c18R6: what Put writes Get reads back: every field of auth.Credential that is
+// copied into a field of the stored entry is read back from that same field
+// into the same Credential field, and the pair handed to the auth encoder comes
+// back from the decoder in the same order into the same fields.  The pairs are
+// found by data flow (stores of one struct's field loads into the other
+// struct's fields); no type or field name of the entry is assumed.
+func c18R6(c *Ctx, fns []*ssa.Function) {
+	const R6 = "C18.R6.credential-fields-agree"
+	c.Expect(R6, 3)
+	const credT = "~/registry/remote/auth.Credential."
+	isCred := func(f string) bool { return strings.HasPrefix(f, credT) }
+	// field loads a value denotes
+	loads := func(v ssa.Value) []string {
+		var out []string
+		for _, r := range Roots(v) {
+			if f := fieldOfFuncValue(r); f != "" {
+				out = append(out, f)
+			}
+		}
+		return out
+	}
+	toFile := map[string]map[string]token.Pos{} // Credential field -> entry fields it is stored into
+	fromFile := map[string]map[string]bool{}    // entry field -> Credential fields it is read into
+	type encCall struct {
+		args []string // Credential field per argument
+		dst  string   // entry field receiving the result
+		pos  token.Pos
+	}
+	var encs []encCall
+	decRes := map[int]map[string]bool{} // result index of the decoder -> Credential fields
+	decSrc := map[string]bool{}         // entry fields the decoder is applied to
+	for _, f := range fns {
+		AllInstrs(f, func(in ssa.Instruction) {
+			st, ok := in.(*ssa.Store)
+			if !ok {
+				return
+			}
+			fa, ok := st.Addr.(*ssa.FieldAddr)
+			if !ok {
+				return
+			}
+			dst := fieldName(fa.X.Type(), fa.Field)
+			for _, src := range loads(st.Val) {
+				switch {
+				case isCred(src) && !isCred(dst):
+					if toFile[src] == nil {
+						toFile[src] = map[string]token.Pos{}
+					}
+					toFile[src][dst] = st.Pos()
+				case !isCred(src) && isCred(dst):
+					if fromFile[src] == nil {
+						fromFile[src] = map[string]bool{}
+					}
+					fromFile[src][dst] = true
+				}
+			}
+			for _, r := range Roots(st.Val) {
+				switch u := r.(type) {
+				case *ssa.Call: // entry field = encode(cred.A, cred.B)
+					g := StaticCallee(u)
+					if g == nil || !inModule(g) || isCred(dst) || len(u.Call.Args) < 2 {
+						continue
+					}
+					ec := encCall{dst: dst, pos: u.Pos()}
+					for _, a := range u.Call.Args {
+						l := loads(a)
+						if len(l) != 1 || !isCred(l[0]) {
+							ec.args = nil
+							break
+						}
+						ec.args = append(ec.args, l[0])
+					}
+					if len(ec.args) >= 2 {
+						encs = append(encs, ec)
+					}
+				case *ssa.Extract: // cred.A, cred.B, err = decode(entry.field)
+					call, ok := u.Tuple.(*ssa.Call)
+					if !ok || !isCred(dst) {
+						continue
+					}
+					g := StaticCallee(call)
+					if g == nil || !inModule(g) || len(call.Call.Args) != 1 {
+						continue
+					}
+					l := loads(call.Call.Args[0])
+					if len(l) != 1 || isCred(l[0]) {
+						continue
+					}
+					decSrc[l[0]] = true
+					if decRes[u.Index] == nil {
+						decRes[u.Index] = map[string]bool{}
+					}
+					decRes[u.Index][dst] = true
+				}
+			}
+		})
+	}
+	var keys []string
+	for g := range toFile {
+		keys = append(keys, g)
+	}
+	sort.Strings(keys)
+	for _, g := range keys {
+		var fs []string
+		for f := range toFile[g] {
+			fs = append(fs, f)
+		}
+		sort.Strings(fs)
+		for _, f := range fs {
+			back := fromFile[f]
+			ok := len(back) == 1 && back[g]
+			var got []string
+			for b := range back {
+				got = append(got, strings.TrimPrefix(b, credT))
+			}
+			sort.Strings(got)
+			c.Check(R6, strings.TrimPrefix(g, credT)+"|read-back-from-where-it-is-written", toFile[g][f], ok, ifelse(ok, "written to "+f+" and read back from it into the same field",
+				"Credential."+strings.TrimPrefix(g, credT)+" is stored in "+f+", which Get reads into ["+strings.Join(got, ", ")+"]: the credential read back is not the one stored"))
+		}
+	}
+	for _, ec := range encs {
+		ok := decSrc[ec.dst]
+		for i, a := range ec.args {
+			if len(decRes[i]) != 1 || !decRes[i][a] {
+				ok = false
+			}
+		}
+		var as []string
+		for _, a := range ec.args {
+			as = append(as, strings.TrimPrefix(a, credT))
+		}
+		c.Check(R6, strings.Join(as, ",")+"|encoded-pair-decoded-in-order", ec.pos, ok, ifelse(ok, "the encoder's arguments ("+strings.Join(as, ", ")+") come back from the decoder applied to "+ec.dst+" in the same order into the same fields",
+			"the values encoded into "+ec.dst+" ("+strings.Join(as, ", ")+") are not the fields the decoder's results are stored into, in that order"))
+	}
+}
+
+// ---------- R7 ----------
+
+// c18R7: the load side of "never damages the config file".  What Put/Delete
+// write back is the loaded document with one entry changed, so the document in
+// memory must be the whole file: the file opened by the loader is decoded into a
+// raw map (every top-level key kept verbatim, known or not); a failure to open
+// the file other than "does not exist", and a failure to decode it, make the
+// load fail — otherwise an unreadable or malformed file is taken for an empty
+// one and replaced by the next save.
+func c18R7(c *Ctx, fns []*ssa.Function) {
+	const R7 = "C18.R7.load-keeps-the-document"
+	c.Expect(R7, 2)
+	n := 0
+	for _, f := range fns {
+		for _, op := range CallsTo(f, "os.Open", "os.OpenFile", "os.ReadFile") {
+			n++
+			fn := FnName(f)
+			// (1) open error
+			e := ErrOf(op)
+			ok, why := false, "the error of opening the config file is discarded"
+			errIdx := ErrResultIndex(f.Signature)
+			if e != nil && errIdx >= 0 {
+				al := Aliases(e)
+				_, nonNil, ifs := NilTests(f, al)
+				tol := toleratedEdges(f, al, []string{"io/fs.ErrNotExist", "os.ErrNotExist"})
+				t, _, _ := CallTests(f, "os.IsNotExist", func(call *ssa.Call) bool { return al[call.Call.Args[0]] })
+				cutT := newCut().Edges(tol...).Edges(t...).Instr(op.(ssa.Instruction))
+				ok, why = len(ifs) > 0, "the error of opening the config file is never tested"
+				for _, a := range RetAtoms(f, errIdx) {
+					if len(ifs) == 0 && (al[a.Val] || al[strip(a.Val)]) {
+						ok = true // returned as is
+					}
+				}
+				for _, ne := range nonNil {
+					if bad := findNilReturnFrom(f, ne, errIdx, cutT, al); bad != nil {
+						ok, why = false, "an error of opening the config file other than \"does not exist\" (permission, I/O, …) is taken for a missing file: the load succeeds with an empty document and the next Put or Delete replaces the real file with it"
+					}
+				}
+			}
+			c.Check(R7, fn+"|open-error-surfaces-unless-missing", op.Pos(), ok, ifelse(ok, "only a missing file is tolerated; any other open error fails the load", why))
+			// (2) the document decode
+			f0 := ResultOf(op, 0)
+			var dec ssa.CallInstruction
+			var target ssa.Value
+			if f0 != nil {
+				src := map[ssa.Value]bool{f0: true}
+				for _, d := range CallsTo(f, "(*encoding/json.Decoder).Decode") {
+					if c11DerivesFrom(d.Common().Args[0], src) {
+						dec, target = d, d.Common().Args[1]
+					}
+				}
+				for _, d := range CallsTo(f, "encoding/json.Unmarshal") {
+					if c11DerivesFrom(d.Common().Args[0], src) {
+						dec, target = d, d.Common().Args[1]
+					}
+				}
+			}
+			if dec == nil {
+				c.Violation(R7, fn+"|document-decoded-whole", op.Pos(), "the opened config file is not JSON-decoded in the function that opens it: cannot see that the document is read as a whole")
+				continue
+			}
+			okT := false
+			for _, r := range Roots(target) {
+				if p, isP := r.Type().Underlying().(*types.Pointer); isP && c18IsRawMap(p.Elem()) {
+					okT = true
+				}
+			}
+			r := ErrFlow(dec, ErrFlowOpts{})
+			okD := okT && r.OK
+			c.Check(R7, fn+"|document-decoded-whole", dec.Pos(), okD, ifelse(okD, "the file is decoded into a map[string]json.RawMessage (every top-level key kept verbatim); a decode error fails the load",
+				ifelse(!okT, "the config file is decoded into a typed value, not a raw map: top-level fields this library does not know are dropped at load and lost at the next save",
+					"a failure to decode the config file is ignored ("+r.Detail+"): a malformed or truncated file is taken for an empty document and replaced by the next save")))
+		}
+	}
+	if n == 0 {
+		c.LostAnchor(R7, "the loader of the config package (os.Open / os.ReadFile in ~/"+c18CfgPkg+")")
 	}
 }
 
@@ -1752,10 +1971,27 @@ func c18PutImpliesSaved(c *Ctx, fns []*ssa.Function) {
 		}
 		// a writer of the in-memory state: stores an entry into the auths map or assigns the creds-store field
 		writes := false
+		deletes := false
+		absentVals := map[ssa.Value]bool{} // the comma-ok of a lookup in the auths map ("the entry exists")
+		var absent []Edge
 		for _, f := range append([]*ssa.Function{P}, Anons(P)...) {
 			auths := c11FieldReads(f, c18Cfg+"."+c18FAuths)
 			AllInstrs(f, func(in ssa.Instruction) {
 				switch u := in.(type) {
+				case *ssa.Call:
+					if CalleeName(u) == "builtin:delete" && auths[u.Call.Args[0]] {
+						deletes = true
+					}
+				case *ssa.Lookup:
+					if u.CommaOk && auths[u.X] {
+						for _, ref := range *u.Referrers() {
+							if ex, ok := ref.(*ssa.Extract); ok && ex.Index == 1 {
+								for a := range Aliases(ex) {
+									absentVals[a] = true
+								}
+							}
+						}
+					}
 				case *ssa.MapUpdate:
 					if auths[u.Map] {
 						writes = true
@@ -1767,8 +2003,12 @@ func c18PutImpliesSaved(c *Ctx, fns []*ssa.Function) {
 				}
 			})
 		}
-		if !writes {
+		if !writes && !deletes {
 			continue
+		}
+		if deletes && !writes {
+			// a Delete may return nil without saving only where the entry was absent from the map
+			_, absent = BoolTests(P, absentVals)
 		}
 		key := FnName(P) + "|success-implies-saved"
 		atoms := c11SuccessAtoms(P)
@@ -1780,8 +2020,8 @@ func c18PutImpliesSaved(c *Ctx, fns []*ssa.Function) {
 			}
 		}
 		if len(saves) > 0 {
-			ok := len(atoms) > 0 && c11AllAtomsPass(atoms, func() *cut { return newCut().Calls(saves) })
-			c.Check(R1, key, P.Pos(), ok, ifelse(ok, "every successful return lies behind the call that saves the file",
+			ok := len(atoms) > 0 && c11AllAtomsPass(atoms, func() *cut { return newCut().Calls(saves).Edges(absent...) })
+			c.Check(R1, key, P.Pos(), ok, ifelse(ok, "every successful return lies behind the call that saves the file"+ifelse(len(absent) > 0, " (or on the entry-absent edge of the lookup)", ""),
 				"a path returns nil without saving the file: after an earlier failed save the in-memory entry is ahead of the file, so a Put that is skipped as \"unchanged\" reports success although nothing was written"))
 			continue
 		}
@@ -1850,6 +2090,25 @@ func c18PutImpliesSaved(c *Ctx, fns []*ssa.Function) {
 						}
 					}
 					if bIdx >= 0 {
+						if deletes && !writes {
+							// a Delete may report "unchanged" exactly when the entry was absent: the comma-ok of its lookup
+							allAbsent := true
+							for _, rt := range Roots(ret.Results[bIdx]) {
+								if k, isConst := rt.(*ssa.Const); isConst && k.Value != nil && constant.BoolVal(k.Value) {
+									continue
+								}
+								if !absentVals[rt] {
+									allAbsent = false
+								}
+							}
+							if allAbsent {
+								continue
+							}
+							// … or the constant false returned on the entry-absent edge
+							if _, abs := BoolTests(L, absentVals); len(abs) > 0 && MustPass(ret, newCut().Edges(abs...)) {
+								continue
+							}
+						}
 						if k, isConst := ret.Results[bIdx].(*ssa.Const); !isConst || k.Value == nil || !constant.BoolVal(k.Value) {
 							ok, why = false, "the mutation can report \"unchanged\" with a nil error, so "+FnName(H)+" returns nil without saving"
 						}
@@ -2139,6 +2398,21 @@ func c18Forwarding(c *Ctx, R4 string) {
 }
 
 var c18Mutants = []Mutant{
+	// R7 (the first keeps the repository's tests green)
+	{Name: "open-error-taken-for-missing-file", File: "registry/remote/credentials/internal/config/config.go",
+		Old: "\t\tif os.IsNotExist(err) {", New: "\t\tif err != nil {",
+		Expect: "C18.R7.load-keeps-the-document|~/registry/remote/credentials/internal/config.Load|open-error-surfaces-unless-missing"},
+	{Name: "document-decode-error-ignored", File: "registry/remote/credentials/internal/config/config.go",
+		Old: "\tif err := json.NewDecoder(configFile).Decode(&cfg.content); err != nil {\n\t\treturn nil, fmt.Errorf(\"failed to decode config file at %s: %w: %v\", configPath, ErrInvalidConfigFormat, err)\n\t}",
+		New: "\t_ = json.NewDecoder(configFile).Decode(&cfg.content)",
+		Expect: "C18.R7.load-keeps-the-document|~/registry/remote/credentials/internal/config.Load|document-decoded-whole"},
+	// R6
+	{Name: "tokens-swapped-on-write", File: "registry/remote/credentials/internal/config/config.go",
+		Old: "\t\tIdentityToken: cred.RefreshToken,\n\t\tRegistryToken: cred.AccessToken,", New: "\t\tIdentityToken: cred.AccessToken,\n\t\tRegistryToken: cred.RefreshToken,",
+		Expect: "C18.R6.credential-fields-agree|AccessToken|read-back-from-where-it-is-written"},
+	{Name: "decoded-pair-swapped", File: "registry/remote/credentials/internal/config/config.go",
+		Old: "\t\tcred.Username, cred.Password, err = decodeAuth(ac.Auth)", New: "\t\tcred.Password, cred.Username, err = decodeAuth(ac.Auth)",
+		Expect: "C18.R6.credential-fields-agree|Username,Password|encoded-pair-decoded-in-order"},
 	// R1
 	{Name: "write-config-in-place", File: "registry/remote/credentials/internal/config/config.go",
 		Old:    "\t// overwrite the config file\n\tif err := os.Rename(ingest, cfg.path); err != nil {",
@@ -2156,6 +2430,10 @@ var c18Mutants = []Mutant{
 		Old:    "\t\tif err := tempFile.Close(); err != nil && ingestErr == nil {\n\t\t\tingestErr = fmt.Errorf(\"failed to close ingest file: %w\", err)\n\t\t}\n",
 		New:    "",
 		Expect: "C18.R1.atomic-replace|~/registry/remote/credentials/internal/ioutil.Ingest|close-error-captured"},
+	{Name: "delete-skipped-for-empty-entry", File: "registry/remote/credentials/internal/config/config.go",
+		Old:    "\tif _, ok := cfg.authsCache[serverAddress]; !ok {",
+		New:    "\tif v, ok := cfg.authsCache[serverAddress]; !ok || len(v) == 0 {",
+		Expect: "C18.R1.atomic-replace|(*~/registry/remote/credentials/internal/config.Config).DeleteCredential|success-implies-saved"},
 	{Name: "put-skipped-when-cache-equal", File: "registry/remote/credentials/internal/config/config.go",
 		Old:    "\tcfg.authsCache[serverAddress] = authCfgBytes\n\treturn cfg.saveFile()",
 		New:    "\tif bytes.Equal(cfg.authsCache[serverAddress], authCfgBytes) {\n\t\treturn nil\n\t}\n\tcfg.authsCache[serverAddress] = authCfgBytes\n\treturn cfg.saveFile()",
